@@ -180,8 +180,21 @@ fn ret2_fake(a: u64) -> (u64, u64) { (a ^ 0xAAAA, a ^ 0x5555) }
 #[inline(never)] pub fn big(a: u64, b: f64) -> [u64; 17] { std::hint::black_box([a ^ b.to_bits(); 17]) }
 fn big_fake(a: u64, b: f64) -> [u64; 17] { let mut r = [0u64; 17]; for (i, x) in r.iter_mut().enumerate() { *x = a.wrapping_mul(i as u64 + 1) ^ b.to_bits(); } r }
 
+// an extern "C" function taking aggregates by value (two floats packed into one vector register, a 24-byte struct on the stack under the
+// C ABI; the Rust ABI passes both differently), faked through fake! with a `when` clause: the generated fake must use the target's ABI
+#[repr(C)] #[derive(Clone, Copy)] pub struct P2 { pub x: f32, pub y: f32 }
+#[repr(C)] #[derive(Clone, Copy)] pub struct B24 { pub a: u64, pub b: u64, pub c: u64 }
+#[inline(never)] pub unsafe extern "C" fn cagg(p: P2, z: f32, q: B24, o: *const u64) -> u64 { std::hint::black_box((p.x + p.y + z) as u64 ^ q.a ^ q.b ^ q.c ^ o as u64) }
+fn cagg_expect(p: P2, z: f32, q: B24, o: *const u64) -> u64 {
+    (p.x.to_bits() as u64) ^ ((p.y.to_bits() as u64) << 1) ^ ((z.to_bits() as u64) << 2) ^ q.a.wrapping_mul(3) ^ q.b.wrapping_mul(5) ^ q.c.wrapping_mul(7) ^ (o as u64).wrapping_mul(11)
+}
+
 fn rust_shapes(id: &str, n: usize, seed: u64) -> String {
     let mut inj = InjectorPP::new();
+    inj.when_called(injectorpp::func!(unsafe{} extern "C" fn (cagg)(P2, f32, B24, *const u64) -> u64))
+        .will_execute(injectorpp::fake!(func_type: unsafe extern "C" fn(p: P2, z: f32, q: B24, o: *const u64) -> u64, when: !o.is_null(),
+            returns: (p.x.to_bits() as u64) ^ ((p.y.to_bits() as u64) << 1) ^ ((z.to_bits() as u64) << 2) ^ q.a.wrapping_mul(3) ^ q.b.wrapping_mul(5) ^ q.c.wrapping_mul(7) ^ (o as u64).wrapping_mul(11)));
+    let pc: unsafe extern "C" fn(P2, f32, B24, *const u64) -> u64 = std::hint::black_box(cagg);
     inj.when_called(injectorpp::func!(fn (f14)(u64, u64, u64, u64, u64, u64, f64, f64, f64, f64, u64, u64, u32, u8) -> u64))
         .will_execute_raw(injectorpp::func!(fn (f14_fake)(u64, u64, u64, u64, u64, u64, f64, f64, f64, f64, u64, u64, u32, u8) -> u64));
     inj.when_called(injectorpp::func!(fn (ret2)(u64) -> (u64, u64))).will_execute_raw(injectorpp::func!(fn (ret2_fake)(u64) -> (u64, u64)));
@@ -198,6 +211,8 @@ fn rust_shapes(id: &str, n: usize, seed: u64) -> String {
         if p14(a[0], a[1], a[2], a[3], a[4], a[5], x[0], x[1], x[2], x[3], a[6], a[7], b3, b4) != f14_fake(a[0], a[1], a[2], a[3], a[4], a[5], x[0], x[1], x[2], x[3], a[6], a[7], b3, b4) { bad += 1; }
         if p2(a[0]) != ret2_fake(a[0]) { bad += 1; }
         if pb(a[1], x[0]) != big_fake(a[1], x[0]) { bad += 1; }
+        let (p, z, q, o) = (P2 { x: f32::from_bits(a[2] as u32 >> 2), y: f32::from_bits(a[3] as u32 >> 2) }, f32::from_bits(a[4] as u32 >> 2), B24 { a: a[5], b: a[6], c: a[7] }, &a[0] as *const u64);
+        if unsafe { pc(p, z, q, o) } != cagg_expect(p, z, q, o) { bad += 1; }
     }
     drop(inj);
     let restored = p2(5) == (5, 6);
